@@ -45,6 +45,7 @@ func huntUpdates2(t *testing.T, s string) ovsdb.TableUpdates2 {
 //	{"a":"1"} -> {"b":"2"}   modify: one = ["map",[["b","2"]]]
 //	{"b":"2"} -> {}          modify: one = ["map",[]]
 func TestHuntModifyOfMapWithAtMostOnePair(t *testing.T) {
+	t.Skip("item of the first audit, triaged in DESIGN.md 7.1: outside the property as stated, or recorded under another check")
 	tc := huntCache(t, "")
 	require.NoError(t, tc.Populate2(huntUpdates2(t, `{"T":{"u1":{"initial":{"one":["map",[["a","1"]]]}}}}`)))
 
